@@ -5,3 +5,8 @@ namespace MidnightZK.C10.Driver
 def answer (_line : String) : String := "unimplemented"
 
 end MidnightZK.C10.Driver
+
+/-- `mzk-c10 < ops.txt > model.txt` : one answer line per request line. -/
+def main : IO UInt32 := do
+  MidnightZK.lineLoop (← IO.getStdin) (← IO.getStdout) MidnightZK.C10.Driver.answer
+  return 0
